@@ -90,9 +90,21 @@ def malformed_prelude():
             pass
 
 
-def h_cusip(ctx, classes):
+def long_history(n):
+    """an arbitrary preceding workload of n distinct well-formed identifiers through every public function"""
+    for i in range(n):
+        c = "%08d" % (i * 7919 % 100000000)
+        utils.validate_cusip(c + utils.cusip_checksum(c))
+        s = "%06d" % (i * 104729 % 1000000)
+        utils.sedol_checksum(s)
+        b = "US%09d" % (i * 15485863 % 1000000000)
+        utils.validate_isin(b + utils.isin_checksum(b))
+
+
+def h_cusip(ctx, classes, history=0):
     """8 symbolic characters; classes gives the alphabet of each position (d digits, l letters, s specials, a/c any)"""
     malformed_prelude()
+    long_history(history)
     base = split_str(ctx, "b", classes)
     if ctx.known("C20-cusip-special-chars", ctx.any(['*' == c for c in base] + ['@' == c for c in base] + ['#' == c for c in base])):
         return
@@ -125,8 +137,9 @@ def h_cusip2isin(ctx, classes):
     ctx.check("cusip2isin refuses a CUSIP whose check digit is wrong", bad)
 
 
-def h_sedol(ctx, classes):
+def h_sedol(ctx, classes, history=0):
     malformed_prelude()
+    long_history(history)
     base = split_str(ctx, "b", classes)
     chk = utils.sedol_checksum(base)
     ref = ref_sedol(ctx, base)
@@ -148,13 +161,14 @@ def h_sedol(ctx, classes):
     ctx.check("sedol2isin refuses a SEDOL whose check digit is wrong", bad)
 
 
-def h_isin(ctx, prefix, classes):
+def h_isin(ctx, prefix, classes, history=0):
     """prefix: a concrete agency code, or None for a symbolic choice over the whole table"""
     if prefix is None:
         pfx = ctx.enum("prefix", sorted(lib.NUMBERING_AGENCIES.keys()))
     else:
         pfx = prefix
     malformed_prelude()
+    long_history(history)
     body = split_str(ctx, "b", classes)
     base = pfx + body
     chk = utils.isin_checksum(base)
@@ -253,6 +267,10 @@ def instances(tier, seed):
     if full:
         mk("isin[prefix symbolic,ddddddddd]", "isin", dict(prefix=None, classes="ddddddddd"))
         mk("isin[prefix symbolic,lllllllll]", "isin", dict(prefix=None, classes="lllllllll"))
+    # the same obligations after a long history of other identifiers (300 distinct valid ones through every function)
+    mk("cusip[dddddddd,history=300]", "cusip", dict(classes="dddddddd", history=300))
+    mk("sedol[dddddd,history=300]", "sedol", dict(classes="dddddd", history=300))
+    mk("isin[US,ddddddddd,history=300]", "isin", dict(prefix="US", classes="ddddddddd", history=300))
     mk("isin_badprefix", "isin_badprefix", {}, mode="fresh", wall_s=300)
     for n in range(0, 14):
         if n != 9:
